@@ -15,6 +15,7 @@ unchanged: result / error kind = the direct call with the effective arguments.
 """
 from __future__ import annotations
 
+import copy
 import inspect
 import sys
 import types
@@ -500,18 +501,23 @@ class Divergence(Exception):
     self.clause, self.expected, self.observed, self.step = clause, expected, observed, step
     self.after_json = False
     self.diff = None
+    self.slot = 'active'
+    self.exp_kind = None
 
 
 class Replayer:
   """Steps one behaviour through a functor made by pg.functor (flavour 0) or pg.symbolize (flavour 1), with the
   values concretised through `pal`."""
 
-  def __init__(self, flavour: int, pal: Palette = IDENTITY):
+  def __init__(self, flavour: int, pal: Palette = IDENTITY, seq: int = 0):
     self.flavour = flavour
     self.pal = pal
     self.hits: Dict[str, int] = {}
-    self.f = None
+    self.f = None          # the active functor
+    self.g = None          # the passive one (a copy made by Fork)
+    self.g_after_json = False
     self.nclone = 0
+    self.nfork = seq       # the way of copying rotates over behaviours and forks
     self.steps_done = 0
     self.after_json = False
 
@@ -527,14 +533,16 @@ class Replayer:
     out = []
     self.steps_done = 0
     self.after_json = False
+    self.probe_reported = set()
     for k, step in enumerate(beh[1:], start=1):
       try:
         self.step(gen, cls, step.state, k)
         self.steps_done = k
       except Divergence as d:
-        d.after_json = self.after_json
+        d.after_json = self.g_after_json if d.slot == 'passive' else self.after_json
         out.append(d)
-        if not d.clause.startswith('call'):
+        # calls and probe calls are pure: the replay goes on, except when the PASSIVE functor was disturbed
+        if not (d.clause.startswith('call') or (d.clause.endswith('-probe') and d.slot == 'active')):
           break
         self.steps_done = k
     return out
@@ -592,9 +600,19 @@ class Replayer:
       self.after_json = True
       self.hit('JsonRT')
     elif name == 'Drop':
-      self.f = None
+      self.f = self.g = None
       self.hit('Drop')
       return
+    elif name == 'Fork':
+      how = FORK_WAYS[self.nfork % len(FORK_WAYS)]
+      self.nfork += 1
+      self.g = how[1](self.f)
+      self.g_after_json = self.after_json
+      self.hit('Fork:' + how[0])
+    elif name == 'Swap':
+      self.f, self.g = self.g, self.f
+      self.after_json, self.g_after_json = self.g_after_json, self.after_json
+      self.hit('Swap')
     elif name == 'Call':
       _, pvals, kvals, ov, ig, cm = act
       pos, kws = valued_args(pvals, kvals, pal)
@@ -611,20 +629,55 @@ class Replayer:
         raise Divergence('call-error-kind', f'TypeError ({exp_err})', kind if kind != 'ok' else f'ok: {plain(val)}', k)
     else:
       raise MachineryFailure(f'unknown action {name}')
-    # after every step on a live functor: what it reports must be what the spec says is bound
+    # after every step: what each live functor reports, and how it answers the two probe calls, must be what the
+    # spec says - for the active one and for the untouched passive copy
     if st['phase'] == 'built':
-      rep = {NAME[n]: (pal.exp(v) if v != 0 else pg.MISSING_VALUE) for n, v in _pairs(st['rep']['args']).items()}
-      bound = _pairs(st['bound'])
-      extras = {NAME[n]: pal.exp(v) for n, v in bound.items() if NAME[n] not in rep}
-      want = plain({'vals': rep, 'va': [pal.exp(v) for v in st['vargs']], 'kwx': extras})
-      got = sym_args_of(self.f, sig)
-      if got != want:
-        raise Divergence('sym_init_args', want, got, k)
-      # non_default_args / default_args are decided by the VALUE of each argument
-      for clause, spec_set, got_set in (('non_default_args', st['rep']['nondef'], self.f.non_default_args),
-                                        ('default_args', st['rep']['dflt'], self.f.default_args)):
-        want_names = sorted('args' if n == 99 else NAME[n] for n in spec_set)
-        if sorted(got_set) != want_names:
-          d = Divergence(clause, want_names, sorted(got_set), k)
-          d.diff = 'args' if set(got_set) ^ set(want_names) == {'args'} else 'named'
-          raise d
+      self.check_slot(self.f, sig, st['bound'], st['vargs'], st['rep'], 'active', k)
+      if st['other']['live']:
+        self.hit('two-live:' + name)
+        o = st['other']
+        self.check_slot(self.g, sig, o['bound'], o['vargs'], o['rep'], 'passive', k)
+
+  def check_slot(self, obj, sig, bound, vargs, rep_st, slot, k):
+    pal = self.pal
+
+    def fail(clause, want, got, diff=None, exp_kind=None):
+      d = Divergence(clause, want, got, k)
+      d.slot, d.diff, d.exp_kind = slot, diff, exp_kind
+      raise d
+    rep = {NAME[n]: (pal.exp(v) if v != 0 else pg.MISSING_VALUE) for n, v in _pairs(rep_st['args']).items()}
+    extras = {NAME[n]: pal.exp(v) for n, v in _pairs(bound).items() if NAME[n] not in rep}
+    want = plain({'vals': rep, 'va': [pal.exp(v) for v in vargs], 'kwx': extras})
+    got = sym_args_of(obj, sig)
+    if got != want:
+      fail('sym_init_args', want, got)
+    # non_default_args / default_args are decided by the VALUE of each argument
+    for clause, spec_set, got_set in (('non_default_args', rep_st['nondef'], obj.non_default_args),
+                                      ('default_args', rep_st['dflt'], obj.default_args)):
+      want_names = sorted('args' if n == 99 else NAME[n] for n in spec_set)
+      if sorted(got_set) != want_names:
+        fail(clause, want_names, sorted(got_set), 'args' if set(got_set) ^ set(want_names) == {'args'} else 'named')
+    # probe calls (pure): every unspecified parameter by keyword without override_args / nothing at all
+    flags = {'override_args': False, 'ignore_extra_args': False}
+    late_kw = {NAME[n]: pal.arg(400 + n) for n in sorted(rep_st['probe'])}
+    for clause, kws, exp_st in (('late-probe', late_kw, rep_st['late']), ('plain-probe', {}, rep_st['plain'])):
+      if (slot, clause) in self.probe_reported:       # one report per behaviour: the same probe would fail at every step
+        continue
+      exp_err, exp = expected_of(exp_st, pal)
+      kind, val = outcome(lambda: obj(**kws, **flags))
+      bad = None
+      if exp_err == 'ok':
+        if kind != 'ok':
+          bad = ('ok', f'{kind}: {val}')
+        elif not same(val, exp):
+          bad = (exp, plain(val))
+      elif kind != 'TypeError':
+        bad = (f'TypeError ({exp_err})', kind if kind != 'ok' else f'ok: {plain(val)}')
+      if bad:
+        self.probe_reported.add((slot, clause))
+        fail(clause, bad[0], bad[1], exp_kind=exp_err)
+
+
+FORK_WAYS = (('clone', lambda f: f.clone()), ('clone-deep', lambda f: f.clone(deep=True)),
+             ('copy.copy', copy.copy), ('copy.deepcopy', copy.deepcopy),
+             ('pg.clone', lambda f: pg.clone(f)), ('pg.clone-deep', lambda f: pg.clone(f, deep=True)))
